@@ -87,6 +87,9 @@ type C02Plan struct {
 	// documented, so permits() is not consulted; the library must still agree with
 	// itself: one verdict per intent, whatever the debug mode and the alterations.
 	Lenient bool `json:"lenient,omitempty"`
+	// Switch: at the end the operator switches both middlewares to Other (the pages stay
+	// open) and every intent is run again; the verdict is then what OTHER means.
+	Switch bool `json:"switch,omitempty"`
 }
 
 type c02 struct{}
@@ -322,6 +325,7 @@ func (c02) Gen(r *R, tier string) any {
 				p.Routes[i] = 6 + r.Intn(3*625)
 			}
 		}
+		p.Switch = r.P(0.3)
 	}
 	k := pick(r, []int{0, 1, 2, 3, 3, 4, 6})
 	kinds := []string{"ows_left", "ows_right", "ows_both", "empty", "empty", "split", "split", "empty_line"}
@@ -836,35 +840,35 @@ func viaRoute(route int, cfg Cfg, other *Cfg, debug bool, c *Ctx) (m *cors.Middl
 				return
 			}
 			for i := 0; i < 4 && walk > 0; i++ {
-				clockTick("a step of the route")
+				betweenSteps("a step of the route")
 				switch walk % 5 {
 				case 0:
-					m.SetDebug(true)
+					setDebugN(m, true)
 				case 1:
-					m.SetDebug(false)
+					setDebugN(m, false)
 				case 2:
 					oc := other.Config()
-					if m.Reconfigure(&oc) != nil {
+					if reconfN(m, &oc) != nil {
 						m = nil
 						return
 					}
 				case 3:
-					m.Reconfigure(nil)
+					reconfN(m, nil)
 				case 4:
 					c2 := cfg.Config()
-					if m.Reconfigure(&c2) != nil {
+					if reconfN(m, &c2) != nil {
 						m = nil
 						return
 					}
 				}
 				walk /= 5
 			}
-			clockTick("the last step of the route")
-			if m.Reconfigure(&cc) != nil {
+			betweenSteps("the last step of the route")
+			if reconfN(m, &cc) != nil {
 				m = nil
 				return
 			}
-			m.SetDebug(debug)
+			setDebugN(m, debug)
 		default:
 			var err error
 			if m, err = mkMW(cc); err != nil {
@@ -1087,6 +1091,42 @@ func (c02) Exec(plan any, c *Ctx) *Violation {
 			}
 		}
 	}
+	// ---- policy change: both middlewares are switched to the OTHER configuration (debug
+	// mode stays as it is) and every intent is run once more. What the first configuration
+	// allowed a moment ago is of no consequence: the verdict is what the other one means.
+	if p.Switch && p.Other != nil && !p.Lenient {
+		oc1, oc2 := p.Other.Config(), p.Other.Config()
+		var e1, e2 error
+		if pan := catch(func() { e1, e2 = reconfN(mOff, &oc1), reconfN(mOn, &oc2) }); pan != "" {
+			return &Violation{Class: "panic", Key: "switch", Detail: fmt.Sprintf("Reconfigure(%s): %s", p.Other, pan)}
+		}
+		if e1 != nil || e2 != nil {
+			return nil
+		}
+		c.hit("policy_switched_under_open_pages")
+		for _, in := range p.Intents {
+			want, why := permits(*p.Other, in)
+			for _, w := range []struct {
+				name string
+				srv  *mwServer
+			}{{"debug=off", srvOff}, {"debug=on", srvOn}} {
+				var trace []string
+				v := browserFetch(w.srv, in, nil, c, &trace)
+				c.logf("after the switch, %s intent=%+v -> ok=%v stage=%s (permits=%v)", w.name, in, v.OK, v.Stage, want)
+				if v.Stage == "panic" {
+					return &Violation{Class: "panic", Key: "serve", Detail: fmt.Sprintf("cfg=%s intent=%+v: %s", p.Other, in, v.Why)}
+				}
+				if v.OK != want {
+					cls := "browser-succeeds-but-config-forbids"
+					if want {
+						cls = "browser-fails-but-config-permits"
+					}
+					return &Violation{Class: cls, Key: w.name + " after switch", Detail: fmt.Sprintf("the middleware served cfg=%s, was then reconfigured to cfg=%s; %s intent=%+v: browser verdict ok=%v (%s %s) but the current configuration says permitted=%v (%s); trace: %s",
+						p.Cfg, p.Other, w.name, in, v.OK, v.Stage, v.Why, want, why, strings.Join(trace, " || "))}
+				}
+			}
+		}
+	}
 	return nil
 }
 
@@ -1139,9 +1179,14 @@ func (c02) Shrink(plan any) []any {
 			out = append(out, &q)
 		}
 	}
+	if p.Switch {
+		q := *p
+		q.Switch = false
+		out = append(out, &q)
+	}
 	if p.Other != nil {
 		q := *p
-		q.Other, q.Routes = nil, [2]int{}
+		q.Other, q.Routes, q.Switch = nil, [2]int{}, false
 		out = append(out, &q)
 		for i := range p.Routes {
 			if p.Routes[i] != 0 {
